@@ -92,6 +92,13 @@
        C12_s_take_lawful             returns the stored key object of that pair
 
    PARTLY / NOT COVERED BY A THEOREM (left to the correspondence check)
+   [The items below, and "every insertion path", are CLOSED in the AUDIT CLOSURE
+    section at the end of this file: C12_iter_exposes_stored / C12_into_exposes_stored /
+    C12_drain_exposes_stored; C12_s_insert_present_discards;
+    C12_or_insert_with_keeps_key, C12_or_insert_with_key_keeps_key,
+    C12_and_modify_keeps_key, C12_occ_insert_keeps_key, C12_entry_of_discards_key;
+    C12_run_refines / C12_srun_refines; C12_extend_keeps_first_key,
+    C12_visit_map_step_present for the bulk and serde insertion paths.]
    * "iteration always exposes the stored key": iterators yield slot indices and
      C09_iter_yield_is_elem says slot i holds entry i of Spec.elems; not restated
      here.
@@ -406,6 +413,409 @@ Example C12_example_set_runs :
   end /\
   match s_take E true (QCls 6) w with
   | Ok r w' => r = Some (k_ 2 6) /\ Spec.elems (self w') = [(k_ 1 5, tt)]
+  | _ => False
+  end.
+Proof. vm_compute. repeat split; reflexivity. Qed.
+
+(* ========================================================================
+   AUDIT CLOSURE (Proofs/MoreEntry.v)
+
+   The theorems below close the findings of the independent audit of C12:
+   (7) Set::insert discards the supplied element (log clause);  (8) the whole
+   entry API keeps the stored key object: or_insert_with, or_insert_with_key,
+   and_modify, OccupiedEntry::insert, and entry(k) itself destroys the supplied
+   key on an occupied entry;  (9) iteration (borrowing, consuming, draining)
+   exposes exactly the stored key objects; Set::get is get_key_value;
+   (10) "all histories": the history-level refinement theorems, which carry
+   object identity;  (11) "every insertion path": Extend / FromIterator /
+   From<[_;N]> and serde.
+
+   Throughout, `List.map fst (Spec.elems m)` is the list of stored key OBJECTS
+   in slot order (identity, not class), and `lookup ck l c` the stored
+   (key object, value) of class c.
+   ======================================================================== *)
+Require Import Proofs.Dict Proofs.Dict2 Proofs.IterSpec Proofs.MoreEntry.
+
+(* ---------------------------------------------------------------------- *)
+(* Finding 7.  "Set::insert ... discard the supplied one".  Hypotheses:     *)
+(* lawful environment, well-formed set, an element of k's class is stored   *)
+(* (at index i).  Then insert answers false, the content — hence the stored *)
+(* element object — is exactly what it was, and the supplied object k is    *)
+(* destroyed: exactly its identities are logged as dropped.                 *)
+(* ---------------------------------------------------------------------- *)
+Theorem C12_s_insert_present_discards :
+  forall (K Q T : Type) (E : env K unit Q T) (debug : bool) (ck : K -> N) (cq : Q -> N)
+         (HL : Lawful E ck cq) (k : K) (i : nat) (w : world K unit T),
+    WF (self w) ->
+    find_idx ck (ck k) (Spec.elems (self w)) = Some i ->
+    wp (s_insert E debug k)
+       (fun (r : bool) (w' : world K unit T) =>
+          r = false /\ Spec.elems (self w') = Spec.elems (self w) /\
+          logged w w' (ev_drops (idK E k)) /\
+          WF (self w') /\ cap (self w') = cap (self w))
+       (fun _ : world K unit T => False) w.
+Proof. exact (fun K Q T E debug ck cq HL => s_insert_present_discards E debug ck cq HL). Qed.
+Print Assumptions C12_s_insert_present_discards.
+
+(* ---------------------------------------------------------------------- *)
+(* Finding 8.  The entry API keeps the originally stored key object and    *)
+(* discards the supplied one (property text, first sentence).               *)
+(* ---------------------------------------------------------------------- *)
+
+(* entry(k) on an occupied entry: the supplied key object is destroyed at once
+   (the entry keeps only the index of the stored pair) *)
+Theorem C12_entry_of_discards_key :
+  forall (K V Q T : Type) (E : env K V Q T) (ck : K -> N) (cq : Q -> N) (HL : Lawful E ck cq)
+         (k : K) (i : nat) (w : world K V T),
+    WF (self w) ->
+    find_idx ck (ck k) (Spec.elems (self w)) = Some i ->
+    wp (entry_of E k)
+       (fun (e : @entry K) (w' : world K V T) =>
+          e = Occupied i /\ self w' = self w /\ logged w w' (ev_drops (idK E k)))
+       (fun _ : world K V T => False) w.
+Proof. exact (fun K V Q T E ck cq HL => entry_of_discards_key E ck cq HL). Qed.
+Print Assumptions C12_entry_of_discards_key.
+
+(* or_insert_with / or_insert_with_key on a present key, ANY closure (it is not
+   called): the container — every stored key object included — is untouched,
+   the supplied key object is destroyed *)
+Theorem C12_or_insert_with_keeps_key :
+  forall (K V Q T : Type) (E : env K V Q T) (debug : bool) (ck : K -> N) (cq : Q -> N)
+         (HL : Lawful E ck cq) (k : K) (f : T -> option V * T) (j : nat) (w : world K V T),
+    WF (self w) ->
+    find_idx ck (ck k) (Spec.elems (self w)) = Some j ->
+    wp (e <- entry_of E k ;; or_insert_with E debug e f)
+       (fun (i : nat) (w' : world K V T) =>
+          i = j /\ self w' = self w /\ logged w w' (ev_drops (idK E k)) /\
+          exists (k0 : K) (v0 : V),
+            nth_error (Spec.elems (self w')) j = Some (k0, v0) /\ ck k0 = ck k)
+       (fun _ : world K V T => False) w.
+Proof. exact (fun K V Q T E debug ck cq HL => or_insert_with_occupied E debug ck cq HL). Qed.
+Print Assumptions C12_or_insert_with_keeps_key.
+
+Theorem C12_or_insert_with_key_keeps_key :
+  forall (K V Q T : Type) (E : env K V Q T) (debug : bool) (ck : K -> N) (cq : Q -> N)
+         (HL : Lawful E ck cq) (k : K) (f : K -> T -> option V * T) (j : nat) (w : world K V T),
+    WF (self w) ->
+    find_idx ck (ck k) (Spec.elems (self w)) = Some j ->
+    wp (e <- entry_of E k ;; or_insert_with_key E debug e f)
+       (fun (i : nat) (w' : world K V T) =>
+          i = j /\ self w' = self w /\ logged w w' (ev_drops (idK E k)) /\
+          exists (k0 : K) (v0 : V),
+            nth_error (Spec.elems (self w')) j = Some (k0, v0) /\ ck k0 = ck k)
+       (fun _ : world K V T => False) w.
+Proof. exact (fun K V Q T E debug ck cq HL => or_insert_with_key_occupied E debug ck cq HL). Qed.
+Print Assumptions C12_or_insert_with_key_keeps_key.
+
+(* and_modify on a present key, ANY closure (stateful, may panic), on BOTH
+   outcomes (normal return / the closure panicked): all stored key objects are
+   the same objects in the same slots; slot j still holds the stored k0 (only
+   its value may differ); the supplied k is destroyed (and the closure ran once) *)
+Theorem C12_and_modify_keeps_key :
+  forall (K V Q T : Type) (E : env K V Q T) (ck : K -> N) (cq : Q -> N) (HL : Lawful E ck cq)
+         (k : K) (f : @modf_t V T) (j : nat) (w : world K V T),
+    WF (self w) ->
+    find_idx ck (ck k) (Spec.elems (self w)) = Some j ->
+    wp (e <- entry_of E k ;; and_modify e f)
+       (fun (_ : @entry K) (w' : world K V T) =>
+          List.map fst (Spec.elems (self w')) = List.map fst (Spec.elems (self w)) /\
+          (exists (k0 : K) (v0 v' : V),
+              nth_error (Spec.elems (self w)) j = Some (k0, v0) /\
+              nth_error (Spec.elems (self w')) j = Some (k0, v') /\ ck k0 = ck k) /\
+          logged w w' (ev_drops (idK E k) ++ [EvCall 3]))
+       (fun w' : world K V T =>
+          List.map fst (Spec.elems (self w')) = List.map fst (Spec.elems (self w)) /\
+          (exists (k0 : K) (v0 v' : V),
+              nth_error (Spec.elems (self w)) j = Some (k0, v0) /\
+              nth_error (Spec.elems (self w')) j = Some (k0, v') /\ ck k0 = ck k) /\
+          logged w w' (ev_drops (idK E k) ++ [EvCall 3])) w.
+Proof. exact (fun K V Q T E ck cq HL => and_modify_keeps_key E ck cq HL). Qed.
+Print Assumptions C12_and_modify_keeps_key.
+
+(* OccupiedEntry::insert: the stored key object of slot i is the same object
+   afterwards (`nth_error ... i = Some (k0, v)`), and so are all the others *)
+Theorem C12_occ_insert_keeps_key :
+  forall (K V T : Type) (ck : K -> N) (i : nat) (v : V) (w : world K V T),
+    WF (self w) ->
+    forall (k0 : K) (v0 : V),
+      nth_error (Spec.elems (self w)) i = Some (k0, v0) ->
+      wp (occ_insert i v)
+         (fun (r : V) (w' : world K V T) =>
+            r = v0 /\ log w' = log w /\ WF (self w') /\
+            nth_error (Spec.elems (self w')) i = Some (k0, v) /\
+            List.map fst (Spec.elems (self w')) = List.map fst (Spec.elems (self w)) /\
+            forall c : N, c <> ck k0 ->
+              lookup ck (Spec.elems (self w')) c = lookup ck (Spec.elems (self w)) c)
+         (fun _ : world K V T => False) w.
+Proof. exact (fun K V T ck => @occ_insert_others K V T ck). Qed.
+Print Assumptions C12_occ_insert_keeps_key.
+
+(* ---------------------------------------------------------------------- *)
+(* Finding 9.  Iteration always exposes the key object that is actually     *)
+(* stored.  A borrowing iterator yields references, modelled by slot        *)
+(* indices; Dict2.read_slots dereferences them.  IterSpec.iter_run n /      *)
+(* into_run n / drain_run n take n steps of the session (n >= len: all).    *)
+(* The pairs obtained are the stored pairs THEMSELVES (equality of objects, *)
+(* not of classes), so the keys seen are `List.map fst (Spec.elems ...)`.   *)
+(* These hold for Set iteration too (V := unit).                            *)
+(* ---------------------------------------------------------------------- *)
+Theorem C12_iter_exposes_stored :
+  forall (K V T : Type) (n : nat) (w : world K V T),
+    WF (self w) ->
+    wp (c <- iter ;; x <- iter_run n c ;; read_slots (fst x))
+       (fun (ps : list (K * V)) (w' : world K V T) =>
+          w' = w /\ ps = firstn n (Spec.elems (self w)) /\
+          List.map fst ps = firstn n (List.map fst (Spec.elems (self w))))
+       (fun _ : world K V T => False) w.
+Proof. exact (fun K V T => @iter_exposes_stored K V T). Qed.
+Print Assumptions C12_iter_exposes_stored.
+
+(* the consuming iterator (it pops from the end: reversed slot order) *)
+Theorem C12_into_exposes_stored :
+  forall (K V T : Type) (n : nat) (w : world K V T),
+    WF (self w) ->
+    wp (into_run n)
+       (fun (r : list (K * V)) (w' : world K V T) =>
+          r = firstn n (rev (Spec.elems (self w))) /\
+          List.map fst r = firstn n (rev (List.map fst (Spec.elems (self w)))) /\ log w' = log w)
+       (fun _ : world K V T => False) w.
+Proof. exact (fun K V T => @into_exposes_stored K V T). Qed.
+Print Assumptions C12_into_exposes_stored.
+
+Theorem C12_drain_exposes_stored :
+  forall (K V T : Type) (n : nat) (w : world K V T),
+    WF (self w) ->
+    wp (c <- drain ;; drain_run n c)
+       (fun (r : list (K * V) * cursor) (w' : world K V T) =>
+          fst r = firstn n (Spec.elems (self w)) /\
+          List.map fst (fst r) = firstn n (List.map fst (Spec.elems (self w))) /\ log w' = log w)
+       (fun _ : world K V T => False) w.
+Proof. exact (fun K V T => @drain_exposes_stored K V T). Qed.
+Print Assumptions C12_drain_exposes_stored.
+
+(* Set::get is get_key_value by definition, so C12_get_key_value_lawful at
+   V := unit is the statement about Set::get: it returns the slot of the STORED
+   element *)
+Theorem C12_s_get_is_get_key_value :
+  forall (K Q T : Type) (E : env K unit Q T) (q : Q), s_get E q = get_key_value E q.
+Proof. exact (fun K Q T E q => s_get_is_get_key_value E q). Qed.
+Print Assumptions C12_s_get_is_get_key_value.
+
+Theorem C12_s_get_lawful :
+  forall (K Q T : Type) (E : env K unit Q T) (ck : K -> N) (cq : Q -> N) (HL : Lawful E ck cq)
+         (q : Q) (w : world K unit T),
+    WF (self w) ->
+    wp (s_get E q)
+       (fun (r : option nat) (w' : world K unit T) =>
+          stable w w' /\ r = find_idx ck (cq q) (Spec.elems (self w)))
+       (fun _ : world K unit T => False) w.
+Proof. exact (fun K Q T E ck cq HL => s_get_lawful E ck cq HL). Qed.
+Print Assumptions C12_s_get_lawful.
+
+(* ---------------------------------------------------------------------- *)
+(* Finding 10.  All histories over keys that compare equal yet are          *)
+(* distinguishable.  Dict.run_refines / SetDict.srun_refines: for EVERY     *)
+(* list of operations, the list of results of the container equals the list *)
+(* of results of the ideal dictionary / set, whose states are lists of key  *)
+(* OBJECTS (K is an arbitrary type; results RVal / RPair / SElem carry the  *)
+(* objects), so the equality of result lists is an equality of objects.     *)
+(* The policy is in the ideal step functions:                               *)
+(*   Dict.dstep, clause DInsert k v / DCheckedInsert k v on a present class: *)
+(*     `d_set d (ck k) (fun p => (fst p, v))` — keeps the FIRST (stored) key *)
+(*     object `fst p`, the supplied k does not enter the state;              *)
+(*   clause DInsertKV k v: `(RPair (k0, v0), d_set d (ck k) (fun _ => (k, v)))` *)
+(*     — stores the supplied k and returns the old pair with the old object; *)
+(*   clauses DGetKV / DRemoveEntry return `RPair p` with p the stored pair;  *)
+(*   SetDict.fstep: SoInsert on a present class returns (SBool false, s)     *)
+(*     unchanged; SoReplace k returns SElem k0 and maps k0 to k; SoGet /      *)
+(*     SoTake return SElem k0, the stored object.                            *)
+(* Hypotheses: Abs ck (self w) d — the container is well-formed, its keys    *)
+(* have pairwise different classes, and its content is a permutation of d;   *)
+(* n is its capacity.  (Abs_new: a fresh container abstracts to [].)         *)
+(* ---------------------------------------------------------------------- *)
+Theorem C12_run_refines :
+  forall (K V Q T : Type) (E : env K V Q T) (debug : bool) (ck : K -> N) (cq : Q -> N)
+         (HL : Lawful E ck cq) (n : nat) (ops : list (@dop K V Q)) (w : world K V T)
+         (d : list (K * V)),
+    Abs ck (self w) d -> cap (self w) = n ->
+    mrun E debug ops w = drun ck cq n ops d.
+Proof. exact (fun K V Q T E debug ck cq HL => run_refines E debug ck cq HL). Qed.
+Print Assumptions C12_run_refines.
+
+Theorem C12_srun_refines :
+  forall (K Q T : Type) (E : env K unit Q T) (debug : bool) (ck : K -> N) (cq : Q -> N)
+         (HL : Lawful E ck cq) (n : nat) (ops : list (@sop K Q)) (w : world K unit T)
+         (s : list K),
+    SAbs ck (self w) s -> cap (self w) = n ->
+    smrun E debug ops w = fsrun ck cq n ops s.
+Proof. exact (fun K Q T E debug ck cq HL => srun_refines E debug ck cq HL). Qed.
+Print Assumptions C12_srun_refines.
+
+(* A history over three equal-but-distinguishable keys of class 6 (objects 1,
+   90, 92) on an empty map of capacity 2: insert K1; insert K90 (returns the
+   old value, K1 stays); get_key_value exposes K1 with the new value;
+   insert_key_value K92 hands back (K1, old value) and stores K92;
+   get_key_value and remove_entry expose K92.  The container's results and the
+   ideal dictionary's results are the same list. *)
+Example C12_example_history :
+  let sc0 := {| sc_adv := false; sc_seed := 0; sc_fk := 0; sc_fa := 0 |} in
+  let ops : list (@dop key vobj query) :=
+    [DInsert (k_ 1 6) (v_ 2 7); DInsert (k_ 90 6) (v_ 91 8); DGetKV (QCls 6);
+     DInsertKV (k_ 92 6) (v_ 93 9); DGetKV (QCls 6); DRemoveEntry (QCls 6); DGetKV (QCls 6)] in
+  let expected : list (@dres key vobj) :=
+    [RNone; RVal (v_ 2 7); RPair (k_ 1 6, v_ 91 8);
+     RPair (k_ 1 6, v_ 91 8); RPair (k_ 92 6, v_ 93 9); RPair (k_ 92 6, v_ 93 9); RNone] in
+  mrun (env_map sc0) true ops (w_of (new_map 2)) = expected /\
+  drun kcls qcls 2 ops [] = expected /\
+  Abs kcls (self (w_of (new_map 2))) [] /\ cap (self (w_of (new_map 2))) = 2.
+Proof.
+  intros sc0 ops expected. split; [vm_compute; reflexivity|]. split; [vm_compute; reflexivity|].
+  split; [apply Abs_new | reflexivity].
+Qed.
+
+(* the same for Set: insert K1; insert K90 (false, K1 stays); get exposes K1;
+   replace K91 hands back K1 and stores K91; get and take expose K91 *)
+Example C12_example_set_history :
+  let sc0 := {| sc_adv := false; sc_seed := 0; sc_fk := 0; sc_fa := 0 |} in
+  let w0 : world key unit cstate := {| cb := cs0; log := []; self := new_map 2 |} in
+  let ops : list (@sop key query) :=
+    [SoInsert (k_ 1 6); SoInsert (k_ 90 6); SoGet (QCls 6);
+     SoReplace (k_ 91 6); SoGet (QCls 6); SoTake (QCls 6); SoGet (QCls 6)] in
+  let expected : list (@sres key) :=
+    [SBool true; SBool false; SElem (k_ 1 6); SElem (k_ 1 6); SElem (k_ 91 6); SElem (k_ 91 6); SNone] in
+  smrun (env_set sc0) true ops w0 = expected /\
+  fsrun kcls qcls 2 ops [] = expected /\
+  SAbs kcls (self w0) [] /\ cap (self w0) = 2.
+Proof.
+  intros sc0 w0 ops expected. split; [vm_compute; reflexivity|]. split; [vm_compute; reflexivity|].
+  split; [apply SAbs_new | reflexivity].
+Qed.
+
+(* ---------------------------------------------------------------------- *)
+(* Finding 11.  "every insertion path": Extend, FromIterator, From<[_;N]>   *)
+(* (all three run Bulk's extend_loop = `insert` item by item:               *)
+(* C16_extend_loop_is_inserts) and serde.                                   *)
+(*   l_extend ck N l items = Some res : inserting the items one by one into *)
+(*   content l under capacity N succeeds with content res.                  *)
+(*   bulk_view ck c start items : what class c maps to afterwards when it   *)
+(*   mapped to `start` before: the key object is the one of `start` when     *)
+(*   there is one, else `first_key ck c items` (the FIRST supplied key       *)
+(*   object of that class); the value is the last supplied one.              *)
+(* ---------------------------------------------------------------------- *)
+Theorem C12_bulk_lookup_gen :
+  forall (K V : Type) (ck : K -> N) (N0 : nat) (items l res : list (K * V)) (c : N),
+    l_extend ck N0 l items = Some res ->
+    lookup ck res c = bulk_view ck c (lookup ck l c) items.
+Proof. exact (fun K V => @bulk_lookup_gen K V). Qed.
+Print Assumptions C12_bulk_lookup_gen.
+
+(* the key-object clause, spelled out, for the loop itself: hypotheses — the
+   source iterator `nx` does not panic, lawful environment, well-formed
+   container.  On normal return: a class that was stored keeps its key object;
+   a new class gets the first supplied key object of that class. *)
+Theorem C12_extend_keeps_first_key :
+  forall (K V Q T : Type) (E : env K V Q T) (debug : bool) (ck : K -> N) (cq : Q -> N)
+         (HL : Lawful E ck cq) (nx : T -> ans * T) (items : list (K * V)) (w : world K V T),
+    (forall s : T, fst (nx s) <> Boom) ->
+    WF (self w) ->
+    wp (extend_loop E debug nx items)
+       (fun (_ : unit) (w' : world K V T) =>
+          (forall c : N,
+              lookup ck (Spec.elems (self w')) c =
+              bulk_view ck c (lookup ck (Spec.elems (self w)) c) items) /\
+          (forall (c : N) (k0 : K) (v0 : V),
+              lookup ck (Spec.elems (self w)) c = Some (k0, v0) ->
+              exists v' : V, lookup ck (Spec.elems (self w')) c = Some (k0, v')) /\
+          (forall (c : N) (k1 : K),
+              lookup ck (Spec.elems (self w)) c = None ->
+              first_key ck c items = Some k1 ->
+              exists v' : V, lookup ck (Spec.elems (self w')) c = Some (k1, v')))
+       (fun _ : world K V T => True) w.
+Proof. exact (fun K V Q T E debug ck cq HL => extend_keeps_first_key E debug ck cq HL). Qed.
+Print Assumptions C12_extend_keeps_first_key.
+
+(* serde: the visitor decodes one entry at a time into FRESH objects (key
+   identity id = next_id, value identity id+1) and passes them to Map::insert —
+   the same `insert` as C12_insert_lawful (this is the definition, unfolded) *)
+Theorem C12_visit_map_cons :
+  forall (debug : bool) (sc : script) (k : key) (v : vobj) (rest : list (key * vobj)),
+    visit_map debug sc ((k, v) :: rest) =
+    (id <- get_next_id ;; bump_id (id + 2) ;;
+     old <- insert (env_map sc) debug {| kid := id; kcls := kcls k |} {| vid := id + 1; vdat := vdat v |} ;;
+     drop_opt_val (env_map sc) old ;;
+     visit_map debug sc rest).
+Proof. exact visit_map_cons. Qed.
+Print Assumptions C12_visit_map_cons.
+
+(* hence a decoded entry whose class is already stored (at slot j, as (k0, v0))
+   keeps the stored key object k0; the decoded key object (identity next_id)
+   and the old value are destroyed.  `honest sc`: truthful ==, no panics. *)
+Theorem C12_visit_map_step_present :
+  forall (debug : bool) (sc : script) (k : key) (v : vobj) (j : nat) (k0 : key) (v0 : vobj)
+         (w : world key vobj cstate),
+    honest sc -> WF (self w) ->
+    find_idx kcls (kcls k) (Spec.elems (self w)) = Some j ->
+    nth_error (Spec.elems (self w)) j = Some (k0, v0) ->
+    wp (visit_map debug sc [(k, v)])
+       (fun (_ : unit) (w' : world key vobj cstate) =>
+          WF (self w') /\ cap (self w') = cap (self w) /\
+          Spec.elems (self w') =
+            upd (Spec.elems (self w)) j (k0, {| vid := next_id (cb w) + 1; vdat := vdat v |}) /\
+          logged w w' [EvDrop (next_id (cb w)); EvDrop (vid v0)])
+       (fun _ : world key vobj cstate => False) w.
+Proof. exact visit_map_step_present. Qed.
+Print Assumptions C12_visit_map_step_present.
+
+(* ---------------------------------------------------------------------- *)
+(* non-vacuity of the hypotheses above, and concrete runs                   *)
+(* ---------------------------------------------------------------------- *)
+Example C12_example_hyps2 :
+  let sc0 := {| sc_adv := false; sc_seed := 0; sc_fk := 0; sc_fa := 0 |} in
+  let a : map key unit := {| len := 2; slots := [Some (k_ 1 5, tt); Some (k_ 2 6, tt)] |} in
+  honest sc0 /\ WF a /\ find_idx kcls (kcls (k_ 90 6)) (Spec.elems a) = Some 1 /\
+  WF m3 /\ find_idx kcls (kcls (k_ 90 6)) (Spec.elems m3) = Some 1 /\
+  nth_error (Spec.elems m3) 1 = Some (k_ 3 6, v_ 4 8) /\
+  (forall s : cstate, fst (nx_none s) <> Boom) /\
+  l_extend kcls 3 (Spec.elems m3) [(k_ 90 6, v_ 91 0)] = Some [(k_ 1 5, v_ 2 7); (k_ 3 6, v_ 91 0); (k_ 5 7, v_ 6 9)].
+Proof.
+  intros sc0 a. split; [split; reflexivity|].
+  split.
+  { split; [cbn; lia|]. intros i Hi. cbn [len a] in Hi. destruct i as [|[|i]]; try lia; eexists; reflexivity. }
+  split; [reflexivity|]. split; [exact m3_WF|]. split; [reflexivity|]. split; [reflexivity|].
+  split; [intros s; cbn; discriminate | reflexivity].
+Qed.
+
+(* Set::insert of an equal element destroys the supplied object (id 90);
+   iteration over m3 after or_insert_with / and_modify / occ_insert with an equal
+   key still yields the key objects 1, 3, 5; extend and serde keep object 3 *)
+Example C12_example_runs2 :
+  let sc0 := {| sc_adv := false; sc_seed := 0; sc_fk := 0; sc_fa := 0 |} in
+  let E := env_map sc0 in
+  let a : map key unit := {| len := 2; slots := [Some (k_ 1 5, tt); Some (k_ 2 6, tt)] |} in
+  match s_insert (env_set sc0) true (k_ 90 6) {| cb := cs0; log := []; self := a |} with
+  | Ok r w' => r = false /\ log w' = [EvDrop 90] /\ Spec.elems (self w') = [(k_ 1 5, tt); (k_ 2 6, tt)]
+  | _ => False
+  end /\
+  match (e <- entry_of E (k_ 90 6) ;; _ <- or_insert_with E true e (mk_val sc0 (v_ 91 0)) ;;
+         c <- iter ;; x <- iter_run 3 c ;; read_slots (fst x)) (w_of m3) with
+  | Ok ps w' => List.map fst ps = [k_ 1 5; k_ 3 6; k_ 5 7] /\ log w' = [EvDrop 90]
+  | _ => False
+  end /\
+  match (e <- entry_of E (k_ 90 6) ;; _ <- and_modify e (modf_add sc0) ;; into_run 3) (w_of m3) with
+  | Ok ps w' => List.map fst ps = [k_ 5 7; k_ 3 6; k_ 1 5] /\ log w' = [EvDrop 90; EvCall 3]
+  | _ => False
+  end /\
+  match (_ <- occ_insert 1 (v_ 91 0) ;; c <- drain ;; drain_run 3 c) (w_of m3) with
+  | Ok r w' => List.map fst (fst r) = [k_ 1 5; k_ 3 6; k_ 5 7]
+  | _ => False
+  end /\
+  match extend_loop E true nx_none [(k_ 90 6, v_ 91 0)] (w_of m3) with
+  | Ok _ w' => Spec.elems (self w') = [(k_ 1 5, v_ 2 7); (k_ 3 6, v_ 91 0); (k_ 5 7, v_ 6 9)]
+  | _ => False
+  end /\
+  match visit_map true sc0 [(k_ 90 6, v_ 91 0)] (w_of m3) with
+  | Ok _ w' => Spec.elems (self w') = [(k_ 1 5, v_ 2 7); (k_ 3 6, v_ 100001 0); (k_ 5 7, v_ 6 9)] /\
+               log w' = [EvDrop 100000; EvDrop 4]
   | _ => False
   end.
 Proof. vm_compute. repeat split; reflexivity. Qed.
